@@ -544,6 +544,9 @@ func (wk *worker) eval(order [2]int, u *unit, coins []coin, outs []*wire.TxOut, 
 			oc, u.rate, coinsString(coins), inNames[u.chg], chgLen)
 	}
 
+	// the caller's slice has spare capacity (a slice built by append usually has): the
+	// author must not use it
+	outs = append(make([]*wire.TxOut, 0, len(outs)+2), outs...)
 	var calls []int64
 	src := newSource(w, coins, &calls)
 	newScripts := 0
@@ -699,6 +702,30 @@ func (wk *worker) eval(order [2]int, u *unit, coins []coin, outs []*wire.TxOut, 
 				d.Detail["dust_threshold"] = dust
 				return fmt.Sprintf("%s: change output of %d sat added, below the dust threshold %d of a %s output at the 1000 sat/kvB relay fee (inputs total %d, fee %d)", head(), co.Value, dust, inNames[u.chg], sumIn, fee), d
 			})
+		}
+	}
+
+	// (g) authoring again from the same requested outputs (other change script) leaves
+	// this transaction's outputs alone.
+	if at.ChangeIndex >= 0 {
+		snap := func() string {
+			var sb strings.Builder
+			for _, o := range tx.TxOut {
+				fmt.Fprintf(&sb, "%d:%x ", o.Value, o.PkScript)
+			}
+			return sb.String()
+		}
+		before := snap()
+		var calls2 []int64
+		other := append([]byte(nil), chgScript...)
+		other[len(other)-1] ^= 0x55
+		cs2 := &txauthor.ChangeSource{NewScript: func() ([]byte, error) { return other, nil }, ScriptSize: chgLen}
+		_, _ = txauthor.NewUnsignedTransaction(outs, btcutil.Amount(u.rate), newSource(w, coins, &calls2), cs2)
+		if after := snap(); after != before {
+			wk.violate(gkey{"outputs:altered-by-later-authoring", changeFlag, oc.class}, order, mask, func() (string, interface{}) {
+				return fmt.Sprintf("%s: after a second NewUnsignedTransaction from the same requested outputs (slice with spare capacity) the outputs of the first transaction changed from [%s] to [%s]", head(), before, after), describe(u, coins, chgLen)
+			})
+			return code, nsel, altered
 		}
 	}
 
@@ -1038,10 +1065,17 @@ func Run(args []string) {
 		"clause (g): txsizes.EstimateVirtualSize must not exceed own worst case + slack, for every prefix of every coin sequence, every requested output list and every change type (and without change); an estimate below the own (73-byte ECDSA signature) worst case is only counted (estimator_below_own_worst_case_cases), not a violation: the property bounds the fee by the real signed size (clause c)",
 		"coins are offered in a fixed order by the wallet's own input source (wallet.makeInputSource through a build-tagged hook); keys are compressed; taproot coins are BIP86 key-spend",
 	}
+	wp := walletPart(run)
+	samples = append(samples, wp.samples...)
 	cov := ev.Coverage{
-		"evaluations":         tot.Evaluations,
-		"distinct_nontrivial": nontrivial,
-		"rule":                "every case is a distinct tuple (requested outputs, fee rate, ordered coin sequence, boundary prefix k, change script type, total of the first k coins); non-trivial = the authored transaction needed >= 2 coins, or the case sits next to (1 sat from) a case of the same tuple with a different outcome (insufficient / no change / change / number of inputs), i.e. on a decision boundary of the implementation",
+		"evaluations":                              tot.Evaluations + wp.evals,
+		"wallet_level_cases":                       wp.cases,
+		"wallet_level_signed_by_wallet":            wp.signedByWallet,
+		"wallet_level_signed_by_harness":           wp.signedByHarness,
+		"wallet_level_import_combinations_refused": wp.skipped,
+		"wallet_level_rule":                        "the real wallet authors (txToOutputs) from default account 0 of every default scope x change scope of every default scope, and from accounts imported from an extended public key into every default scope x address schema override {none, nested/nested, nested/p2wkh, p2wkh/p2wkh, p2tr/p2tr, p2pkh/p2pkh} (watch-only, signed by the harness with keys it derived itself) x rate {1000, 2500, 10000} x 1|2 coins: inputs = outputs + fee, change pays the internal address type of the change account, change not dust, every input verifies, fee >= rate applied to the real signed virtual size",
+		"distinct_nontrivial":                      nontrivial,
+		"rule":                                     "every case is a distinct tuple (requested outputs, fee rate, ordered coin sequence, boundary prefix k, change script type, total of the first k coins); non-trivial = the authored transaction needed >= 2 coins, or the case sits next to (1 sat from) a case of the same tuple with a different outcome (insufficient / no change / change / number of inputs), i.e. on a decision boundary of the implementation",
 		"grid": fmt.Sprintf("requested outputs: %s (each %d sat); fee rates %v sat/kvB; coin sequences: all %d ordered sequences of length 1..%d over {p2pkh, nested p2wpkh, p2wpkh, p2tr}; for each sequence each boundary prefix length k; change script of each of the 4 types; total of the first k coins = sum(outputs) + X. Full grid: X = F + delta, delta in %v, F in {own worst-case fee without change, own worst-case fee with change, own worst-case fee with change + dust threshold of the change script}, for prefixes containing p2tr additionally with F computed for a 65-byte taproot signature. Every full/spec grid also contains X = own worst-case fee with change incl. estimator slack (the smallest total the insufficient-funds clause counts as covered). Spec grid: the same without the middle F. Lean grid: X in {fee without change, fee with change + dust - 1, fee with change + dust}. %s. Coins before the boundary coin get sum(outputs)/k + their own marginal fee (so k coins are needed), coins after it %d sat",
 			strings.Join(ocNames, "; "), outAmount, rates, nseq, maxLen, deltas, gridRule, laterCoin),
 		"estimate_vs_own_worst_case_checks":      estimateChecks,
